@@ -91,6 +91,7 @@ class Harness(cm.BaseB):
             out.append({"k": "invalid", "dev": dev})
             out.append({"k": "lifetime", "dev": dev})
             out.append({"k": "flip", "dev": dev})
+            out.append({"k": "within", "dev": dev})
         return out
 
     def cases(self, chunk):
@@ -127,6 +128,12 @@ class Harness(cm.BaseB):
                 for li in subfamily()[:24]:
                     for pb in ("auto", "source"):
                         yield {"k": "reuse", "dev": chunk["dev"], "first": first, "tr": li, "pb": pb}
+        elif chunk["k"] == "within":
+            # transfers inside one labware whose later triples live on what earlier triples of the same call deliver
+            for order in ([0, 1], [1, 0], [0, 1, 2], [2, 1, 0]):
+                for vols in ([50, 40, 30], [120, 110, 100], [10, 10, 10]):
+                    for pb in ("auto", "source"):
+                        yield {"k": "within", "dev": chunk["dev"], "order": order, "vols": vols, "pb": pb}
         elif chunk["k"] == "flip":
             # wl.diti_mode re-assigned on the live worklist between two transfers with the same wash scheme
             for wash in (1, 2, 3, 4, "flush", "reuse"):
@@ -183,6 +190,34 @@ class Harness(cm.BaseB):
             return self.one_bad(case)
         if case["k"] == "lifetime":
             return self.one_lifetime(case)
+        if case["k"] == "within":
+            chain = [("A01", "A02"), ("A02", "A03"), ("A03", "B03")]
+            sel = [chain[i] for i in case["order"]]
+            vols = [case["vols"][i] for i in case["order"]]
+            lw = rt.Labware("L", 2, 3, min_volume=0, max_volume=1000, initial_volumes=[[150, 0, 0], [0, 0, 0]])
+            wl = getattr(rt, case["dev"])(max_volume=MAXV)
+            try:
+                wl.transfer(lw, [a for a, _ in sel], lw, [b for _, b in sel], vols, partition_by=case["pb"])
+            except Exception as e:
+                return "within:raised", repr(case), [("C07/valid-transfer-raised", f"chained transfer inside one plate {sel} {vols} (A01 holds 150, the others are empty; column groups run left to right): {type(e).__name__}: {e}")]
+            want = {"A01": 150.0, "A02": 0.0, "A03": 0.0, "B03": 0.0}
+            for (a, b), v in zip(sel, vols):
+                want[a] -= v
+                want[b] += v
+            got = {w: float(lw.volumes[lw.indices[w]]) for w in want}
+            P = [gwl.parse(r) for r in wl if r[0] in "AD"]
+            flows = {}
+            for a, d in zip(P[0::2], P[1::2]):
+                flows[(a["position"], d["position"])] = flows.get((a["position"], d["position"]), 0) + a["volume"]
+            g = Geo("L", "plate", 2, 3)
+            dev = "evo" if case["dev"] == "EvoWorklist" else "fluent"
+            wantf = {(g.position(dev, a), g.position(dev, b)): Fraction(v) for (a, b), v in zip(sel, vols)}
+            V = []
+            if got != want:
+                V.append(("C07/flows", f"chained transfer inside one plate {sel} {vols}: volumes {got}, expected {want}"))
+            if {k: v for k, v in flows.items()} != wantf:
+                V.append(("C07/flows", f"chained transfer inside one plate {sel} {vols}: record flows {flows}, expected {wantf}"))
+            return "within:ok", repr(case), V
         if case["k"] == "flip":
             tr = [TRIPLES[i] for i in case["tr"]]
             sw, dw, vols = [t[0] for t in tr], [t[1] for t in tr], [t[2] for t in tr]
